@@ -1,7 +1,9 @@
 (* C15 driver; token grammar in checks/C15.py.
    scenario  :F <op>*   op ::= :g n | :l n $file line | :a fam $file line | :k | :c
              :C custom <cop>*   cop ::= :o | :r | :d n | :m fam
-   observation items: 0|1|2 (block | NULL | bad_alloc), :n | :G n | :L $file line | :X (check), :A 0|1|2 (reset) *)
+             :R backing <rop>*  rop ::= :o | :r | :d n | :m fam | :s fam slot | :f slot | :y slot size | :g n | :c
+   observation items: 0|1|2 (block | NULL | bad_alloc), :n | :G n | :L $file line | :X (check), :A 0|1|2|3 (reset),
+   :P res intact (dup), :Q failure given (free), :Y res failure intact (realloc), :E tracked clean (end of an :R scenario) *)
 let fam_of = function 0 -> FDirect | 1 -> FMalloc | 2 -> FCalloc | 3 -> FStrdup | 4 -> FStrndup | 5 -> FNew | 6 -> FNewArr
   | 7 -> FNewNT | 8 -> FNewArrNT | _ -> raise (Bad "family")
 let cfam_of = function 0 -> CMalloc | 1 -> CCalloc | 2 -> CStrdup | 3 -> CStrndup | _ -> raise (Bad "cfam")
@@ -21,10 +23,24 @@ let rec cops c = if at_end c then [] else
     | ":d" -> CCountdown (z_tok (next c))
     | ":m" -> CAlloc (cfam_of (int_tok (next c)))
     | t -> raise (Bad ("cop " ^ t))) in o :: cops c
+let backing_of = function "0" -> ADefault | "1" -> ACustom | "2" -> ANull | "3" -> AFailable | _ -> raise (Bad "alloc id")
+let rec rops c = if at_end c then [] else
+  let o = (match next c with
+    | ":o" -> RSetOOM
+    | ":r" -> RSetNot
+    | ":d" -> RCountdown (z_tok (next c))
+    | ":m" -> RAlloc (cfam_of (int_tok (next c)))
+    | ":s" -> let f = cfam_of (int_tok (next c)) in RDup (f, nat_tok (next c))
+    | ":f" -> RFree (nat_tok (next c))
+    | ":y" -> let i = nat_tok (next c) in RRealloc (i, n_tok (next c))
+    | ":g" -> RFailG (z_tok (next c))
+    | ":c" -> RClearF
+    | t -> raise (Bad ("rop " ^ t))) in o :: rops c
 let scenario ts = let c = { rest = ts } in
   match next c with
   | ":F" -> SFail (ops c)
   | ":C" -> let cu = bool_tok (next c) in SCount (cu, cops c)
+  | ":R" -> let b = backing_of (next c) in SRel (b, rops c)
   | t -> raise (Bad ("scenario kind " ^ t))
 let pres = function ROk -> "0" | RNull -> "1" | RBadAlloc -> "2" | RCrash -> "3"
 let pitem = function
@@ -33,16 +49,25 @@ let pitem = function
   | OCheck (Some (RepG n)) -> ":G " ^ pz n
   | OCheck (Some (RepL (f, l))) -> ":L " ^ pbytes f ^ " " ^ pn l
   | OCheck (Some RepAnon) -> ":X"
-  | OReset a -> ":A " ^ (match a with ADefault -> "0" | ACustom -> "1" | ANull -> "2")
+  | OReset a -> ":A " ^ (match a with ADefault -> "0" | ACustom -> "1" | ANull -> "2" | AFailable -> "3")
+  | ODup (r, i) -> ":P " ^ pres r ^ " " ^ pbool i
+  | OFree (f, g) -> ":Q " ^ pbool f ^ " " ^ pbool g
+  | ORealloc (r, f, i) -> ":Y " ^ pres r ^ " " ^ pbool f ^ " " ^ pbool i
+  | OEnd (t, cl) -> ":E " ^ pz t ^ " " ^ pbool cl
 let pobs o = let s = String.concat " " (List.map pitem o) in if s = "" then ":-" else s
+let res_of = function "0" -> ROk | "1" -> RNull | "2" -> RBadAlloc | "3" -> RCrash | t -> raise (Bad ("result " ^ t))
 let rec items c = if at_end c then [] else
   let i = (match next c with
     | "0" -> OAlloc ROk | "1" -> OAlloc RNull | "2" -> OAlloc RBadAlloc | "3" -> OAlloc RCrash
+    | ":P" -> let r = res_of (next c) in ODup (r, bool_tok (next c))
+    | ":Q" -> let f = bool_tok (next c) in OFree (f, bool_tok (next c))
+    | ":Y" -> let r = res_of (next c) in let f = bool_tok (next c) in ORealloc (r, f, bool_tok (next c))
+    | ":E" -> let t = z_tok (next c) in OEnd (t, bool_tok (next c))
     | ":n" -> OCheck None
     | ":G" -> OCheck (Some (RepG (z_tok (next c))))
     | ":L" -> OCheck (Some (RepL (loc_tok c)))
     | ":X" -> OCheck (Some RepAnon)
-    | ":A" -> OReset (match next c with "0" -> ADefault | "1" -> ACustom | "2" -> ANull | _ -> raise (Bad "alloc id"))
+    | ":A" -> OReset (backing_of (next c))
     | ":-" -> raise Exit
     | t -> raise (Bad ("obs item " ^ t))) in i :: items c
 let parse_obs os = if os = [":-"] then [] else items { rest = os }
